@@ -125,12 +125,12 @@ def acquire (s : St) (tid : Nat) : St × Bool :=
   if lockFree s then ({ s with locked := true }, true)
   else (setTask { s with waiters := s.waiters ++ [(tid, .pending)] } tid (fun t => { t with pc := .lockWait }), false)
 
-/-- `Task.cancel()` -/
+/-- `Task.cancel()`; the manager only ever cancels its connect task (`_cancel_connect_task`) -/
 def cancelTask (s : St) (tid : Nat) : St :=
   match getTask s tid with
   | none => s
   | some t =>
-    if t.pc = .done then s else
+    if t.pc = .done ∨ t.kind ≠ .connect then s else
     let s := setTask s tid (fun t => { t with mustCancel := true })
     match t.pc with
     | .lockWait =>
@@ -239,10 +239,10 @@ def wakeTask (s : St) (tid : Nat) (t : Task) : St :=
   match t.pc with
   | .done | .running => s
   | .lockWait =>
-    let cancelledFut := s.waiters.any (fun w => w.1 = tid ∧ w.2 = .cancelled)
     let grantedFut := s.waiters.any (fun w => w.1 = tid ∧ w.2 = .granted)
-    if t.mustCancel ∨ cancelledFut then
-      -- CancelledError out of `Lock.acquire`: pass the grant on, the task ends cancelled
+    if t.mustCancel then
+      -- CancelledError out of `Lock.acquire` (the waiter future was cancelled, or the cancellation is delivered at the
+      -- wake-up of a grant): pass the grant on, the task ends cancelled
       let s := removeWaiter s tid
       finish (if s.locked then s else wakeUpFirst s) tid
     else if grantedFut then
